@@ -100,6 +100,72 @@ func work(w *mon.W) {
 	// hostile near-miss names (names that are not tokens but collide with a framing
 	// name under sloppy case folding): the field must not frame the request
 	w.Cases("hostile-name", uint64(w.Pick(1000, 20000)), func(c *mon.Case) { hostileName(w, c, get) })
+	// multipart/form-data bodies of known length (the server parses those itself, default
+	// configuration): the body ends where Content-Length says, whatever follows the closing
+	// boundary inside it — an epilogue is legal MIME — belongs to the body
+	w.Cases("multipart", uint64(w.Pick(2000, 40000)), func(c *mon.Case) { multipartCase(w, c, get) })
+}
+
+func multipartCase(w *mon.W, c *mon.Case, get func(cfg) *engine) {
+	r := c.R
+	cf := cfg{stream: r.Bool()}
+	en := get(cf)
+	val := strings.Repeat("v", r.Int(0, 1, 30, 5000))
+	epilogue := r.Str("", "\r\n", "epilogue\r\n", fmt.Sprintf("\r\nGET /smuggled-%d HTTP/1.1\r\nHost: example.com\r\n\r\n", c.I), fmt.Sprintf("GET /smuggled-%d HTTP/1.1\r\nHost: example.com\r\n\r\n", c.I))
+	if r.Chance(6) {
+		epilogue += strings.Repeat("e", 9000)
+	}
+	body := "--xx\r\nContent-Disposition: form-data; name=\"a\"\r\n\r\n" + val + "\r\n--xx--\r\n" + epilogue
+	npre := r.Intn(2)
+	var sb strings.Builder
+	for i := 0; i < npre; i++ {
+		fmt.Fprintf(&sb, "GET /pre-%d-%d HTTP/1.1\r\nHost: example.com\r\n\r\n", c.I, i)
+	}
+	fmt.Fprintf(&sb, "POST /upload-%d HTTP/1.1\r\nHost: example.com\r\nContent-Type: multipart/form-data; boundary=xx\r\nContent-Length: %d\r\n\r\n%s", c.I, len(body), body)
+	fmt.Fprintf(&sb, "GET /probe-%d HTTP/1.1\r\nHost: example.com\r\n\r\n", c.I)
+	stream := []byte(sb.String())
+	frags, policy := wire.FragSchedule(r, stream, nil)
+	en.obs.Reset()
+	en.obs.ReadSize = nil
+	en.obs.ReadLimit = nil
+	sc := sconn.New(frags, sconn.EOF)
+	c.Detail = func() interface{} {
+		return map[string]interface{}{"family": "multipart", "config": fmt.Sprintf("%+v", cf), "value_len": len(val), "epilogue": trunc(epilogue, 80), "policy": policy, "frag_sizes": wire.FragSizes(frags)}
+	}
+	res := rig.Serve(en.e, sc, 4096, false, 15*time.Second)
+	w.Count("multipart_connections", 1)
+	if res.Hang {
+		c.Violate("hang", "Serve did not finish")
+		return
+	}
+	if res.Panic != nil {
+		c.Violate(mon.PanicKey(res.Stack), "panic: %v\n%s", res.Panic, trunc(res.Stack, 2000))
+		return
+	}
+	var want []string
+	for i := 0; i < npre; i++ {
+		want = append(want, fmt.Sprintf("/pre-%d-%d", c.I, i))
+	}
+	want = append(want, fmt.Sprintf("/upload-%d", c.I), fmt.Sprintf("/probe-%d", c.I))
+	var got []string
+	for _, v := range en.obs.Snapshot() {
+		got = append(got, v.URI)
+	}
+	if fmt.Sprint(got) != fmt.Sprint(want) {
+		key := "handler-count"
+		for _, g := range got {
+			if strings.Contains(g, "/smuggled-") {
+				key = "smuggled-request"
+			}
+		}
+		c.Violate(key, "handlers ran for %q, the requests sent are %q (multipart body of %d bytes with a %d-byte epilogue after the closing boundary)", got, want, len(body), len(epilogue))
+		return
+	}
+	if n := strings.Count(string(res.Out), "HTTP/1.1 "); n != len(want) {
+		c.Violate("response-count", "%d responses for %d requests", n, len(want))
+		return
+	}
+	w.Shape(mon.Hash64("multipart", cf.stream, len(val), epilogue, policy))
 }
 
 // lbServer is a real server on a loopback port (standard or netpoll transport).
